@@ -140,15 +140,26 @@ def inject_file(ctx, tag, ops):
     for p in (trace, mon, ver):
         if os.path.exists(p):
             os.remove(p)
+    # the oracle (a second, independent run of the real code on the same cases) runs concurrently with exec + monitor
+    import threading
+    oracle_res = {}
+
+    def _oracle():
+        oracle_res["rc"], oracle_res["log"] = ctx.harness("oracle", "inject", ops, ver)
+
+    th = threading.Thread(target=_oracle)
+    th.start()
     rc, log = ctx.harness("exec", "inject", ops, trace)
     if rc != 0 or not os.path.exists(trace):
+        th.join()
         ctx.tie_broken("stream-run:inject", "harness exec inject rc=%d: %s" % (rc, log[-3000:]), {"ops_file": tag})
         return 0, False
     rc, err = ctx.drv("inject", trace, mon)
+    th.join()
     if rc != 0:
         ctx.tie_broken("stream-run:inject", "lean driver rc=%d: %s" % (rc, err[-3000:]), {"ops_file": tag})
         return 0, False
-    rc, log = ctx.harness("oracle", "inject", ops, ver)
+    rc, log = oracle_res.get("rc", 1), oracle_res.get("log", "")
     if rc != 0 or not os.path.exists(ver):
         ctx.tie_broken("oracle:inject", "oracle did not run: rc=%s %s" % (rc, log[-2000:]))
         return 0, False
@@ -162,6 +173,7 @@ def inject_file(ctx, tag, ops):
     tstarts = [k for k, l in enumerate(tr) if l.startswith("case")]
     ok = True
     per_base = {}
+    rows_seen = ctx.extra.setdefault("_rows_seen", {})
     if not (len(tstarts) == len(cases) == len(ve)):
         ctx.tie_broken("stream-run:inject", "cases=%d trace cases=%d oracle verdicts=%d" % (len(cases), len(tstarts), len(ve)))
         return 0, False
@@ -178,7 +190,16 @@ def inject_file(ctx, tag, ops):
         per_base.setdefault(base, [0, 0])
         per_base[base][0] += 1
         per_base[base][1] += status == "injected"
+        opk = c[1].split() if len(c) > 1 else ["?"]
+        ctx.count("inject.op.%s" % opk[0])
+        if opk[0] in ("kubeinject-pod", "redecide-kube") and len(opk) > 2:
+            ctx.count("inject.kube-kind.%s" % opk[2])
+        if opk[0] in ("redecide", "redecide-kube"):
+            ctx.count("inject.redecide.%s.%s" % (opk[-1], status))
         for l in seg:
+            if l.startswith("row "):
+                t = l.split()
+                rows_seen.setdefault(t[1], set()).add(t[2])
             if l.startswith("feat "):
                 for ft in (l.split()[1].split(",") if l.split()[1] != "-" else []):
                     ctx.count("inject.feature.%s" % ft)
@@ -189,7 +210,9 @@ def inject_file(ctx, tag, ops):
                            {"stream": "inject", "ops": c})
             ok = False
         if len(c) > 1:
-            ctx.count("inject.setting.%s" % (c[1].split() + ["?", "?"])[1])
+            ctx.count("inject.rendering.%s" % (c[1].split() + ["?", "?"])[1].split("+")[0])
+            for m in (c[1].split() + ["?", "?"])[1].split("+")[1:]:
+                ctx.count("inject.modifier.%s" % m)
             ctx.count("inject.source.%s" % c[1].split()[0])
         canon = "inject\n" + "\n".join(c[1:]) + "\n" + hashlib.sha1("\n".join(l for l in seg[2:] if not l.startswith("status")).encode()).hexdigest()
         sample = None
@@ -198,10 +221,11 @@ def inject_file(ctx, tag, ops):
                       "lean_monitor": lean_v, "go_oracle": go_v}
         ctx.note_case(canon, status == "injected", sample)
         lt, gt = lean_v.split(), go_v.split()
+        ctx.count("inject.verdict.%s" % "-".join(gt[:2]))
         # the oracle's exact classification of the known findings F10e / F10g (the Lean monitor says "idempotent <component>")
         known_class = gt[0] == "FAIL" and gt[1] in ("idempotent-podports-user-proxy-ports", "idempotent-sidecar-env-order-cluster-vars")
         # clauses only the Go oracle can see (labels / env values are digests in the reduced pods)
-        go_only = gt[0] == "FAIL" and gt[1] in ("network-label", "network-env", "path-env", "injected-annotations")
+        go_only = gt[0] == "FAIL" and gt[1] in ("network-label", "network-env", "path-env", "injected-annotations", "status-fields")
         if lt[:2] != gt[:2] and not (known_class and lt[:2] == ["FAIL", "idempotent"]) and not go_only:
             ctx.tie_broken("monitor-vs-oracle:inject",
                            "the Lean monitor and the Go oracle judge the same run differently: lean=%r oracle=%r" % (lean_v, go_v),
@@ -258,6 +282,9 @@ def inject_stream(ctx, n):
         st["cases"] += nc
         st["ops"] += nc
         st["agree"] = st["agree"] and ok
+    rows_seen = ctx.extra.pop("_rows_seen", {})
+    for site, rows in sorted(rows_seen.items()):
+        ctx.count("inject.decision-rows-reached.%s" % site, len(rows))   # distinct abstract rows (of 1200) decided at this call site
     ctx.log("stream inject: %d cases, monitors and oracle %s" % (st["cases"], "accept" if st["agree"] else "REJECT / DIFFER"))
 
 
@@ -266,21 +293,38 @@ def run(ctx):
                 "alwaysMatches x policy{enabled,disabled,other}, each under 10 realisation variants (exhaustive); "
                 "decide: random concrete pods (0-4 labels, inject label/annotation from 12 values, 12 namespaces, hostNetwork) and configs "
                 "(10 policy strings, 0-2 never / always selectors with matchLabels and In/NotIn/Exists/DoesNotExist/invalid expressions, "
-                "invalid keys/values, empty selectors), each evaluated again after randomising fields outside the listed inputs (all DNS policies, "
-                "hostPID/IPC, name, service account, templates annotation, own istio-proxy container); inject: every fixture document of pkg/kube/inject/testdata/inject through the webhook "
-                "(22 renderings; webhook Config with policy disabled / never+always selectors; inject URL path; API-server defaulting between passes) "
-                "and through IntoObject (fixtures and generated pods, bare or wrapped into a Deployment), plus generated pods in ignored and ordinary namespaces (1-3 containers, probes, ports, init containers, native "
-                "sidecars, volumes, user istio-proxy / istio-init, overrides annotation, 20 steering annotations), each injected once and "
-                "twice; distinct = hash of (ops, implementation outputs / reduced pods); non-trivial = pod was actually injected")
+                "invalid keys/values, empty selectors), each evaluated again after randomising fields outside the listed inputs; "
+                "inject: every fixture document of pkg/kube/inject/testdata/inject under each of 23 chart renderings through the webhook and, "
+                "rotating, under webhook-config / URL-path / API-defaulting / HTTP-handler modifiers, and through IntoObject; generated pods "
+                "(1-6 containers, probes, lifecycle handlers, ports, init containers, native sidecars, ephemeral containers, 8 volume kinds, user "
+                "istio-proxy / istio-init / istio-validation / enable-core-dump, overrides annotation, ~45 steering annotations, labels outside "
+                "the listed inputs such as istio.io/rev and istio.io/dataplane-mode, hostPID/IPC) admitted by the webhook; every 4th also through "
+                "kube-inject wrapped into each of 10 workload kinds (IntoObject, IntoResourceFile, IntoObject with an Injector); decision-only "
+                "ops re-admit the really injected pod / workload changed so that the documented decision is never (redecide, redecide-kube); "
+                "each case injected once and twice; distinct = hash of (ops, implementation outputs / reduced pods); non-trivial = pod was "
+                "actually injected")
     ctx.assumptions = [
         "the abstraction of injectRequired's inputs to the 1200-row domain is adequate: checked by 10 realisation variants of every row "
         "(decision_deterministic) and by the random concrete stream `decide` against the concrete model, which provably factors through the row",
         "Kubernetes label-selector semantics (LabelSelectorAsSelector, Requirement.Matches, label key/value syntax) are modelled from "
         "k8s.io/apimachinery v0.36.1 and tied by the `decide` stream only",
         "template rendering, strategic merge and post-processing of the inject path are observed (verified monitors), not modelled",
+        "sidecar.istio.io/status and proxy.istio.io/overrides annotations on an admitted pod were written by the injector under the same "
+        "injector configuration (forged records and a native/non-native switch between two injections are outside the domain)",
+        "'user container' = container whose name is not istio-proxy / istio-init / istio-validation / enable-core-dump (those are merged, may "
+        "move, must not vanish); 'user volume' = volume whose name the result's (truthful) status annotation does not list as injected; only "
+        "name, image, command, args, ports of a user container are promised",
+        "a pod names at most one template that defines istio-proxy; a user istio-proxy written as an init container asks for the native placement",
+        "manual injection (kube-inject) decides with policy enabled and no selectors whatever an injector it consults is configured with "
+        "(IntoObject falls back to local injection when that injector declines)",
+        "not exercised: OpenShift UID block, DetectNativeSidecar from node versions, ProxyConfig CRs, config/mesh reload through the watcher, "
+        "template functions env / applicationPorts (no shipped template calls them), openshift profile",
     ]
     ctx.trusted.append("pkg/kube/inject/zz_verif_c19.go (verif-tagged accessors: VerifInjectRequired, VerifNewWebhook, VerifInject, VerifInjectPod)")
     ctx.trusted.append("harness/c19 realisation of abstract rows as real Pod/Config objects and reduction of injected pods to the monitor's line form")
+    ctx.trusted.append("harness/c19 hand-written pieces the verdicts rest on: the API-server defaulter (apiDefaults), the refusal prediction "
+                       "(refusalExpectation), the stated configuration of every setting (loaded.expect, pathEnvs), the predictions that delimit the "
+                       "two known-finding classes (knownClass), the oracle-only clauses (network, path-env, injected-annotations, status-fields)")
 
     if not ctx.go_build():
         return
@@ -318,7 +362,7 @@ def run(ctx):
             else:
                 ctx.tie_broken("oracle:%s" % stream, "oracle did not run: rc=%s %s" % (rc, log[-2000:]))
     # T-mon: the real webhook path once / twice, judged by the Lean monitors and by the Go oracle
-    inject_stream(ctx, ctx.n(1500, 30000))
+    inject_stream(ctx, ctx.n(1200, 30000))
     if not proved and not ctx.violations:
         pass  # ctx.finish reports the broken proof (no failing input found by table oracle / stream oracles)
 
@@ -371,7 +415,7 @@ MANIFEST = {
                    "workload kind must be skipped iff the documented "
                    "decision says so (judge_decision_checked; missing decision inputs fail), refusals must be predicted, bad patches and unloadable "
                    "configurations fail, the status annotation must be a truthful record (statusTruthfulB_iff). Idempotence / preservation: "
-                   "both paths are run once and twice on every pod fixture under 22 renderings (incl. the setFlags/mesh entries of the package's "
+                   "both paths are run once and twice on every pod fixture under 23 renderings (incl. the setFlags/mesh entries of the package's "
                    "own TestInjection: OTel semconv, mesh TPROXY, mesh status port, multus, mtls certs, mesh proxyMetadata) x webhook-config / inject-path / "
                    "API-defaulting variants and on generated pods; Lean monitors proved sound and complete (preservesB_iff, idempotentB_iff, "
                    "judge_*_sound/complete) judge the reduced pods, a Go oracle judges the full objects. Ten defects found this way were "
